@@ -433,7 +433,10 @@ func (ex *Exec) global(g *ssa.Global) *Cell {
 		ex.globals[g] = c
 		return c
 	}
+	savedInit := ex.inInit
+	ex.inInit = true // package-level variables are owned by the program (scheduler)
 	c := ex.alloc(g.Type().(*types.Pointer).Elem())
+	ex.inInit = savedInit
 	ex.globals[g] = c
 	return c
 }
